@@ -20,24 +20,39 @@ pub fn expand() -> Result<(), PathError> {
     if !std_dir.exists() {
         #[cfg(veryl_verif)]
         veryl_path::verif_gate::point("std-absent");
-        ignore_already_exists(fs::create_dir_all(&std_dir))?;
+        // Other processes take an existing `std_dir` as complete, so it must
+        // appear all at once: expand into a scratch directory under the lock
+        // of the parent directory and rename it into place.
+        let base_dir = std_dir.parent().unwrap().to_path_buf();
+        ignore_already_exists(fs::create_dir_all(&base_dir))?;
 
-        let lock = veryl_path::lock_dir(&std_dir)?;
+        let lock = veryl_path::lock_dir(&base_dir)?;
         #[cfg(veryl_verif)]
         veryl_path::verif_gate::point("std-locked");
 
-        for file in Asset::iter() {
-            let content = Asset::get(file.as_ref()).unwrap();
-            let path = std_dir.join(file.as_ref());
-
-            let parent = path.parent().unwrap();
-            if !parent.exists() {
-                fs::create_dir_all(parent)?;
+        // Another process may have completed the expansion while we waited.
+        if !std_dir.exists() {
+            let tmp_dir = base_dir.join(format!("{STD_HASH}.tmp"));
+            if tmp_dir.exists() {
+                // Left over from an interrupted expansion.
+                fs::remove_dir_all(&tmp_dir)?;
             }
 
-            fs::write(&path, content.data.as_ref())?;
-            #[cfg(veryl_verif)]
-            veryl_path::verif_gate::point("std-file-written");
+            for file in Asset::iter() {
+                let content = Asset::get(file.as_ref()).unwrap();
+                let path = tmp_dir.join(file.as_ref());
+
+                let parent = path.parent().unwrap();
+                if !parent.exists() {
+                    fs::create_dir_all(parent)?;
+                }
+
+                fs::write(&path, content.data.as_ref())?;
+                #[cfg(veryl_verif)]
+                veryl_path::verif_gate::point("std-file-written");
+            }
+
+            fs::rename(&tmp_dir, &std_dir)?;
         }
 
         veryl_path::unlock_dir(lock)?;
